@@ -352,6 +352,11 @@ def keyword_mix_cases(ctx):
     S = tweezer_prog.harness_spec()
     ksrc = ("@tweezer\ndef k3(x: float, dx: float, dy: float):\n    g = grid.from_positions([x, x + 2.0], [0.0])\n    action.set_loc(g)\n    action.turn_on([0, 1], action.ALL)\n"
             "    action.move(grid.shift(g, dx, 0.0))\n    action.move(grid.shift(g, dx, dy))\n    action.turn_off([1], action.ALL)\n")
+    # (second kernel of the same shape whose middle leg is done by a HELPER kernel that records a move and returns the grid it reached)
+    hsrc = ("@tweezer\ndef leg(g, dx: float):\n    h = grid.shift(g, dx, 0.0)\n    action.move(h)\n    return h\n\n"
+            "@tweezer\ndef k3(x: float, dx: float, dy: float):\n    g = grid.from_positions([x, x + 2.0], [0.0])\n    action.set_loc(g)\n    action.turn_on([0, 1], action.ALL)\n"
+            "    h = leg(g, dx)\n    action.move(grid.shift(h, 0.0, dy))\n    action.turn_off([1], action.ALL)\n")
+    k3h = kernels.define(hsrc)["k3"]
     k3 = kernels.define(ksrc)["k3"]
     gt = tc.PosTable()
     fwd = tc.ref_trace(tc.run_native(ksrc, "k3", (1.0, 0.5, 3.0), S)[1])
@@ -361,6 +366,9 @@ def keyword_mix_cases(ctx):
         "one positional argument and two keywords": ("def main(x: float, dx: float, dy: float, back: bool):\n    f = schedule.device_fn(k3, [0, 1], [0])\n    r = schedule.reverse(f)\n    f(x, dx, dy)\n"
                                                      "    r(x, dx=dx, dy=dy)\n    r(x, dy=dy, dx=dx)\n    f(x, dy=dy, dx=dx)\n    r(dy=dy, x=x, dx=dx)\n    f(x, dx, dy=dy)\n", "frrfrf"),
     }
+    progs["a helper kernel records a leg and returns the grid it reached"] = (
+        "def main(x: float, dx: float, dy: float, back: bool):\n    f = schedule.device_fn(k3h, [0, 1], [0])\n    f(x, dx, dy)\n    schedule.reverse(f)(x, dx, dy)\n    f(x, dx, dy)\n"
+        "    schedule.reverse(f)(x, dy=dy, dx=dx)\n", "frfr")
     try:
         cns = kernels.define(chooser)
         progs["forward or reversed, chosen by a helper kernel"] = (
@@ -377,7 +385,7 @@ def keyword_mix_cases(ctx):
             ctx.evaluations += 1
             n += 1
             try:
-                m = kernels.define(src, S=S, k3=k3, **cns)["main"]
+                m = kernels.define(src, S=S, k3=k3, k3h=k3h, **cns)["main"]
                 st, evs, extra = events.run_events(m, (1.0, 0.5, 3.0, True), S, plain=plain)
             except Exception as e:
                 st, evs, extra = "err", [], f"{type(e).__name__}: {e}"
